@@ -307,6 +307,32 @@ func runC10(c c10Case, ev *Ev) (err error) {
 	if stopped && !stopOK {
 		return fmt.Errorf("Stop() did not return within 15 s with %d association(s)\n%s", len(c.Assocs), dumpGoroutines())
 	}
+	// Removal is asserted as an outcome, not against a clock: on a busy machine a read timeout or a heartbeat verdict
+	// can come hundreds of milliseconds late. Wait (bounded) until nothing of an ended association is installed;
+	// what is still there after the bound is reported below.
+	{
+		surv := map[uint64]bool{}
+		for i, a := range c.Assocs {
+			if a.Trigger == "none" && !stopped {
+				for _, si := range sessOf[i] {
+					surv[run.Sess[si].UPSEID] = true
+				}
+			}
+		}
+		for deadline := time.Now().Add(10 * time.Second); time.Now().Before(deadline); time.Sleep(20 * time.Millisecond) {
+			snap := r.B.Snap()
+			left := false
+			for _, e := range snap.FAR {
+				left = left || !surv[e.Fseid]
+			}
+			for _, e := range snap.PDR {
+				left = left || !surv[e.Fseid()]
+			}
+			if !left {
+				break
+			}
+		}
+	}
 	r.B.WaitQuiet(3 * time.Second)
 	// drain what the peers received meanwhile
 	for _, p := range run.Peers {
